@@ -90,6 +90,7 @@ HttpLaterRequest(s, lb, depth) ==
     ELSE LET e == HttpStrict(s, RefPos(s, FALSE) - 2).at IN
          IF e = 0 THEN FALSE
          ELSE IF e > lb THEN TRUE
+         ELSE IF HttpAnnouncesBody(SubSeq(s, 1, e)) THEN FALSE       \* what follows may be that request's body
          ELSE HttpLaterRequest(SubSeq(s, e + 1, Len(s)), lb - e, depth - 1)
 
 (* ONC-RPC over TCP is a sequence of records.  Offset at which the record begins that a    *)
@@ -121,8 +122,14 @@ ClassifyTcp(before, seg, ctx) ==
                 loose == HttpLoose(s, n)
             IN
             IF strict.at > lb THEN Cls(id, "must", IF lb = 0 THEN "C13" ELSE "C11", "http-request-completed-by-this-segment")
-            ELSE IF loose.at = 0 THEN Cls(id, "mustnot", IF lb = 0 THEN "C13" ELSE "C11", "http-malformed-or-unterminated")
-            ELSE IF strict.at > 0 /\ HttpLaterRequest(SubSeq(s, strict.at + 1, Len(s)), lb - strict.at, 8)
+            ELSE IF loose.at = 0 THEN
+                 (* a request line / header that had already gone wrong before this segment: what a  *)
+                 (* responder makes of the bytes after it (a new request?) is not for C11 / C13 to say *)
+                 IF lb > n /\ HttpLoose(SubSeq(s, 1, lb), n).st = "FAIL"
+                 THEN Cls(id, "any", "C13", "http-after-a-malformed-request")
+                 ELSE Cls(id, "mustnot", IF lb = 0 THEN "C13" ELSE "C11", "http-malformed-or-unterminated")
+            ELSE IF strict.at > 0 /\ ~HttpAnnouncesBody(SubSeq(s, 1, strict.at))
+                    /\ HttpLaterRequest(SubSeq(s, strict.at + 1, Len(s)), lb - strict.at, 8)
                  THEN Cls(id, "must", "C13", "http-later-request-completed-by-this-segment")
             ELSE Cls(id, "any", "C13", "http-unspecified-or-already-complete")
       [] id = "RPC_TCP" ->
@@ -145,6 +152,8 @@ ClassifyTcp(before, seg, ctx) ==
                          (* 64 KiB: answering before the record is complete is allowed, not required      *)
                          IF Len(p) < c.hdrend /\ ~later THEN Cls(id, "mustnot", "C11", "rpc-call-header-incomplete")
                          ELSE Cls(id, "any", "C16", "rpc-non-final-or-oversized-fragment")
+                    ELSE IF 4 + rl[2] < c.end
+                    THEN Cls(id, "any", "C16", "rpc-record-mark-shorter-than-the-call")
                     ELSE IF lbp < c.hdrend /\ Len(p) >= t2
                     THEN Cls(id, "must", IF lb = 0 THEN "C16" ELSE IF later THEN "C16" ELSE "C11",
                              IF later THEN "rpc-later-call-completed-by-this-segment" ELSE "rpc-call-completed-by-this-segment")
@@ -221,8 +230,15 @@ AppJudge(transport, before, done, seg0, ctx, rpl, aux) ==
         id == IF ctx.over THEN "over" ELSE RefId(s, transport = "udp")
         who == IF answered THEN ResponderOf(transport, rpl) ELSE "nobody"
         (* reply-typed: the stream as a whole, or (message-oriented protocols) this segment alone *)
+        (* reply-typed: the first message of a flow (or a datagram) as it stands; on a later segment the *)
+        (* message at hand (message-oriented protocols) or the current record (ONC-RPC over TCP)          *)
         rt == IF ctx.over THEN {}
-              ELSE ReplyTypedBy(transport, s) \cup (IF before # << >> THEN ReplyTypedBy("udp", seg0) ELSE {})
+              ELSE IF transport = "udp" \/ before = << >> THEN ReplyTypedBy(transport, s)
+              ELSE (ReplyTypedBy("udp", seg) \ { "RPC" })
+                   \cup (IF RefId(s, FALSE) = "RPC_TCP"
+                         THEN LET b == RpcRecordStart(s, 0, Len(before), 6) IN
+                              IF Len(before) < b + 12 /\ RpcReplyTyped(SubSeq(s, b + 1, Len(s)), 4) THEN { "RPC" } ELSE {}
+                         ELSE {})
     IN
     (IF c.ans = "mustnot" /\ answered
      THEN { << c.prop, "answered:" \o c.why >> }
@@ -242,9 +258,10 @@ AppJudge(transport, before, done, seg0, ctx, rpl, aux) ==
           THEN CASE c.proto = "HTTP"  -> { << "C13", t >> : t \in Http401Fails(rpl) }
                  [] c.proto = "SSH"   -> IF rpl = SSH_REPLY THEN {} ELSE { << "C18", "ssh-exact-server-banner" >> }
                  [] c.proto = "GHOST" -> { << "C18", t >> : t \in GhostFails(rpl, aux.inflated) }
-                 [] c.proto = "STUN"  -> IF Len(seg) >= 20
-                                         THEN { << "C15", t >> : t \in StunSuccessFails(seg, rpl, ctx.ver, ctx.src, ctx.sport) }
-                                         ELSE {}
+                 [] c.proto = "STUN"  -> IF Len(seg) < 20 THEN {}
+                                         ELSE IF Len(rpl) >= 20 /\ StunClass(rpl) = 3      \* an error response to a malformed request
+                                         THEN (IF SubSeq(rpl, 5, 20) = SubSeq(seg, 5, 20) THEN {} ELSE { << "C15", "stun-transaction-id" >> })
+                                         ELSE { << "C15", t >> : t \in StunSuccessFails(seg, rpl, ctx.ver, ctx.src, ctx.sport) }
                  [] c.proto = "RPC_UDP" -> { << "C16", t >> : t \in RpcReplyShellFails(seg, 0, rpl, 0) }
                  [] c.proto = "RPC_TCP" -> IF transport = "tcp"
                                            THEN (* the XID is that of the first call only while that call is *)
@@ -272,6 +289,7 @@ AppJudge(transport, before, done, seg0, ctx, rpl, aux) ==
           ELSE {})
     (* C10: signature-dispatched responders answer only what the signature set identifies *)
     \cup (IF answered /\ who \in SigResponders /\ id \in { "none", "undecided" }
+             /\ ~(who = "STUN" /\ Len(seg) >= 20 /\ StunType(seg) = 1)     \* "STUN binding request" is the published signature
           THEN { << "C10", "answered-without-completed-signature" >> } ELSE {})
     \cup (IF answered /\ who \in SigResponders /\ id \in SigProtos /\ who # Family(id)
           THEN { << "C10", "answered-by-another-protocols-responder" >> } ELSE {})
